@@ -21,7 +21,7 @@ CHECKS = {
    ref="DESIGN.md §4 C18"),
  "C19": dict(
    text="The seven real PodsFilter constructors, ingress.ServicesFilter, pod.NodeFilter, event.InvolvedFilter/InvolvedObjectFilter and service.SelectorMatchFilter are executed symbolically on <=2-3 symbolic workloads (symbolic namespaces, names, selectors, template labels) and a symbolic candidate object of a solver-chosen kind; z3 shows Accept equals the ownership rule written from the property text for every value within the bound.",
-   note="Bounds: quick W<=2 workloads with matchLabels-only selectors plus W<=1 with one matchExpression; thorough W<=3 / W<=2 with expressions; ingress <=2 ingresses with default backend and <=1 (2) rules x 1 path; label maps <=2 pairs. Workload namespaces are assumed non-empty (namespaced API objects). Known finding F6 (replication controller filter ignores the namespace) is listed in KNOWN_FINDINGS.txt.",
+   note="Bounds: quick W<=2 workloads with matchLabels-only selectors plus W<=1 with one matchExpression, plus W<=3 with single-pair maps and a concrete-label variant for the map-selector kinds (service, replication controller); thorough W<=3 / W<=2 with expressions for every kind; ingress <=2 ingresses with default backend and <=1 (2) rules x 1 path; label maps <=2 pairs. Workload namespaces are assumed non-empty (namespaced API objects). Known finding F6 (replication controller filter ignores the namespace) is listed in KNOWN_FINDINGS.txt.",
    ref="DESIGN.md §4 C19"),
  "C17": dict(
    text="FiltersEqual and every real Equals/Accept (nullFilter, allFilter, notFilter, andFilter, orFilter, nsNameFilter, selectorFilter, fnFilter, nodeFilter, involvedFilter, serviceForFilter, the seven PodsFilter, ServicesFilter) are executed symbolically on two independently built filters with solver-chosen structure and symbolic arguments plus a symbolic object; z3 shows that whenever equality is reported both filters agree on the object, that nil / non-comparable cases follow the contract, and that filters built twice from the same arguments (workload filters also from the reversed argument order) compare equal, for every value within the bound.",
@@ -29,15 +29,15 @@ CHECKS = {
    ref="DESIGN.md §4 C17"),
  "C06": dict(
    text="The real filterSubscription.run with its real private cache actor runs below a fake parent subscription whose cache is a second real cache actor mutated by the environment; the environment performs K actions (parent ready, arbitrary parent change with symbolic type/key/version, Refilter to one of four arbitrary filters incl. a non-comparable one) in every order, and every interleaving of the goroutines is explored (sleep-set partial-order reduction). At every quiescent point z3 shows the cache equals the parent content filtered by the most recently set filter at the parent's versions, and that the subscription's own events replay to its own cache.",
-   note="Bounds: quick K<=3 actions after <=1 pre-existing parent object, thorough K<=4; immediate and deferred variants; one filtered level (nesting = composition with C05/C08, argued in DESIGN.md). Filters are arbitrary pure functions. Schedules: all interleavings of completed communications; local steps run first; data-race freedom (needed by the reduction) is checked with vector clocks.",
+   note="Bounds: quick K<=3 actions after <=1 pre-existing parent object, thorough K<=4; immediate and deferred variants; filters picked from three arbitrary filters, a non-comparable one and the initial filter; plus a nested entry (filtered subscription below a filtered clone, K<=2 (3)) asserting the conjunction of both filters. Filters are arbitrary pure functions. Schedules: all interleavings of completed communications; local steps run first; data-race freedom (needed by the reduction) is checked with vector clocks.",
    ref="DESIGN.md §4 C06"),
  "C07": dict(
    text="Same real code as C06 in the property's situation: a ready filtered subscription over <=2 parent objects with nothing in flight, then Refilter(f2) and optionally Refilter(f3) with filters from {three arbitrary filters, accept-all, accept-none}; z3 shows the events observed are exactly one Delete per cached object the new filter rejects and one Create per parent object newly accepted, nothing for an equal filter, and that returning to the first filter restores the first view.",
-   note="Bounds: parent content <=2 (thorough 3) objects with symbolic keys/versions; 1-2 refilter steps over 5 filters (all ordered pairs, and triples ending anywhere). Arbitrary filters are uninterpreted functions, which subsumes equal/overlapping/disjoint families.",
+   note="Bounds: parent content <=2 (thorough 3) objects with symbolic keys/versions; 1-2 refilter steps over 5 filters (all ordered pairs, and triples ending anywhere); immediate subscriptions and for-filter (deferred) subscriptions that became ready through their first Refilter (before or after the parent was ready). Arbitrary filters are uninterpreted functions, which subsumes equal/overlapping/disjoint families.",
    ref="DESIGN.md §4 C07"),
  "C08": dict(
    text="Real filterSubscription.run (immediate and deferred) driven by the property's action alphabet {parent ready, Refilter(equal), Refilter(new), parent change} in every order up to K, with two concurrent observers: one waits for Ready() and immediately reads the cache, one waits for the first event. z3 shows Ready closes iff the parent is ready (and, deferred, a filter was supplied), the read made on observing Ready is the filtered parent content of some moment, and the first event is delivered only after Ready closed.",
-   note="Bounds: quick K<=3, thorough K<=4, <=1 pre-existing parent object. The controller clause (first list fully applied / failed first list never ready) is covered by the C03/C14 harnesses.",
+   note="Bounds: quick K<=3, thorough K<=4, <=1 pre-existing parent object; a depth entry puts a subscriber, a clone and a subscriber of that clone (depth 3) below the filtered clone and asserts the same readiness at every depth; the controller clauses run the C03/C14 controller harnesses. The controller clause (first list fully applied / failed first list never ready) is covered by the C03/C14 harnesses.",
    ref="DESIGN.md §4 C08"),
  "C16": dict(
    text="Real NewMonitor/monitor.run against a fake subscription; the environment performs K actions from {subscription ready, event of symbolic type and object, close subscription, close monitor} in every order while handler callbacks may be arbitrarily slow (a scheduling point inside every callback); all interleavings explored. z3/the engine show: OnInitialize at most once, first, with the cache content; exactly one callback per received event matching type and object in order; callbacks never overlap; none after Done; none if never ready.",
@@ -45,7 +45,7 @@ CHECKS = {
    ref="DESIGN.md §4 C16"),
  "C03": dict(
    text="The real controller.run and the real cache actor run between a fake lister, a recording subscription and a fake watcher whose event channel the environment feeds with ARBITRARY symbolic events (any type, key, version), which over-approximates every watch fault (never connects, drops, duplicates, replays, reordering). The environment performs K actions {list completes, watch event, list completes while a watch event is in flight}; all interleavings explored. From a snapshot taken inside watcher.reset (i.e. right after the sync) z3 shows: every cached key was listed, every listed accepted object is present and never older than listed, the exact reference result when nothing was in flight, one reset per list with the list's version, nothing published for the initial list, and that replaying the published events from the content at readiness always equals the cache.",
-   note="Bounds: quick K<=3 actions with lists of <=1 object and K<=2 with lists of <=2 objects; thorough K<=4/L<=1 and K<=3/L<=2. Watch events before the first list are excluded (the real watcher has no session before its first reset). The liveness half (relists keep coming) is C13; the composition is argued in DESIGN.md.",
+   note="Bounds: quick K<=3 actions with lists of <=1 object and K<=2 with lists of <=2 objects; thorough K<=4/L<=1 and K<=3/L<=2. A third entry (VerifC03_Relist) replaces the fake watcher by the REAL watcher and sessions over a fake API server with <=1 (2) watch events between two lists and asserts the cache equals the second list whatever the watch delivered or still buffers. Watch events before the first list are excluded (the real watcher has no session before its first reset). The liveness half (relists keep coming) is C13; the composition is argued in DESIGN.md.",
    ref="DESIGN.md §4 C03"),
  "C13": dict(
    text="The real lister and ticker run against the engine's timer model with a SYMBOLIC logical clock: the configured period and every jittered period are arbitrary 64-bit values, timer fires are environment transitions, the fake List blocks until released or cancelled. All interleavings of up to CYCLES list/consume cycles and FIRES timer fires are explored; z3 shows each List call starts no earlier than one period after the clock value read before the previous result was consumed, calls never overlap, no reachable state is stuck while a list is awaited, and after closing the stop channel at any point the lister is Done with every library goroutine gone.",
@@ -53,26 +53,26 @@ CHECKS = {
    ref="DESIGN.md §4 C13"),
  "C14": dict(
    text="Real controller.run with the k-th list result (k<=3) being a client error, a non-list object, a list whose items are not API objects, or an object without list accessor; the engine explores all interleavings and shows the controller is Done, Error() is non-nil and (for a client error) its cause chain ends in the injected error, the cache is shut down, no further list is applied, nothing is ready when k=1, every library goroutine has exited; a deliberate Close() reports no error. Watch faults never terminate the controller (C03/C04 harnesses assert it for every fault sequence they explore).",
-   note="Bounds: k<=3 (thorough 4). meta.ExtractList is modelled (reflection), meta.ListAccessor runs for real. The subscriber tree below a real Builder.Create() composition is covered by C11/C12.",
+   note="Bounds: k<=3 (thorough 4); a tree entry runs the controller with its REAL subscription and publisher and a subscriber (thorough: plus a filtered subscriber) and asserts the whole subtree is Done with Events() closed. meta.ExtractList is modelled (reflection), meta.ListAccessor runs for real. The subscriber tree below a real Builder.Create() composition is covered by C11/C12.",
    ref="DESIGN.md §4 C14"),
  "C04": dict(
    text="The real watcher and watch sessions run under the real controller loop against a fake API server with a history of n events (symbolic keys, solver-chosen types): every Watch(rv) call either fails or streams the events newer than rv interleaved with Status / Bookmark frames, and may close before any event or after the burst, within a fault budget; retry timers fire as environment transitions; exactly one list is delivered. All interleavings of controller, watcher, sessions, streams and timers are explored (sleep sets + state cache). At quiescence every event of the history has been applied to the cache in history order (replays allowed, skips not) and published, every Watch call resumes at the list version or at an event version, and neither watcher nor controller has terminated.",
    note="Bounds: quick n<=2 events and <=1 fault (connect error or close at any position), thorough n<=3 and <=2 faults; the final Watch call is served without fault (otherwise the premise 'the server emits it' fails); EventBufsiz scaled to 3 (4) - no overflow occurs within the bound. Consumer/producer speed ratios = all interleavings.",
    ref="DESIGN.md §4 C04"),
  "C05": dict(
-   text="Real publisher.run / _subscription.run (and clones of clones) below a fake root subscription: the environment publishes opaque events and attaches subscribers and clones at solver-chosen points of the stream (optionally at a quiescent moment), in every order up to K actions; all interleavings explored. At quiescence z3/the engine show every subscriber received a contiguous suffix of the published sequence, in order, without duplicate, containing at least every event published after its Subscribe returned (exactly those when it subscribed at a quiescent moment). The cache-not-older clause is asserted in the controller harness (send happens after the cache update).",
+   text="Real publisher.run / _subscription.run (and clones of clones) below a fake root subscription: the environment publishes opaque events and attaches subscribers and clones at solver-chosen points of the stream (optionally at a quiescent moment), in every order up to K actions, including closing one of the subscribers mid-stream, with every iteration order of the publisher's subscription map; all interleavings explored. At quiescence z3/the engine show every subscriber received a contiguous suffix of the published sequence, in order, without duplicate, containing at least every event published after its Subscribe returned (exactly those when it subscribed at a quiescent moment). The cache-not-older clause is asserted in the controller harness (send happens after the cache update).",
    note="Bounds: quick K<=5 actions, clone depth <=3; thorough K<=6. Backlog stays below the real EventBufsiz (100). Map iteration order of the subscription set is insertion order (order of sends to different subscribers is not observable by them).",
    ref="DESIGN.md §4 C05"),
  "C10": dict(
    text="Real publisher / subscription / filtered clone / filtered subscription / monitor with one consumer that never reads and one healthy consumer that keeps its backlog below the buffer, for streams of 0..2B+1 events with EventBufsiz scaled to B; all interleavings explored. The engine shows no stuck state (the stream is always accepted), the healthy consumer receives all events in order, the parent cache holds all objects, and what the stalled consumer later drains is an in-order subsequence of at least min(m,B) events.",
-   note="Bounds: B=2 (thorough 3), stream <=2B+1, four placements of the stalled consumer (sibling subscriber, subscriber of a clone, subscriber of a filtered clone, filtered subscription next to a monitor). The real constant 100 is outside the claim (the code is parametric in it; scaling is recorded in the evidence).",
+   note="Bounds: B=2 (thorough 3), streams of creates and deletes of length <=4 (7), four placements of the stalled consumer (sibling subscriber, subscriber of a clone, subscriber of a filtered clone, filtered subscription next to a monitor). The real constant 100 is outside the claim (the code is parametric in it; scaling is recorded in the evidence).",
    ref="DESIGN.md §4 C10"),
  "C11": dict(
    text="Trees of real publisher / subscription / filtered subscription / clone / filtered clone / monitor nodes below a fake root, shape chosen by the solver; one node (or the root's parent) is closed before any event, mid-stream or at a quiescent point; all interleavings explored. At quiescence every node of the closed subtree is Done with its Events() closed, every other node is not Done and receives a subsequent event.",
-   note="Bounds: quick all single-node shapes (mid-stream included) plus all two-sibling shapes; thorough adds two-level chains (depth 3). Deeper trees do not finish (see DESIGN.md: state explosion of shutdown cascades).",
+   note="Bounds: quick all single-node shapes (mid-stream included) plus all two-sibling shapes, each with a ready or not-yet-ready root and optionally a Refilter on the filtered nodes just before the close, plus the controller with its real subscription/publisher and one subscriber; thorough adds two-level chains (depth 3) and a filtered subscriber below the controller. Deeper trees do not finish (see DESIGN.md: state explosion of shutdown cascades).",
    ref="DESIGN.md §4 C11"),
  "C12": dict(
-   text="Termination is decided per component group with one oracle (no stuck state, Done closes, every library goroutine exits, API calls return a result or ErrNotRunning): real watcher+sessions with resets and shutdown arriving while Watch() is connecting/connected (fake client blocks until cancelled: exactly the property's proviso); real cache actor with calls in flight; real publisher with Subscribe/Clone/SubscribeWithFilter racing with shutdown; real controller loop with Close, concurrent Close, and list error at every workload point; real lister+ticker at every point of the list/tick cycle. All interleavings explored in each group.",
+   text="Termination is decided per component group with one oracle (no stuck state, Done closes, every library goroutine exits, API calls return a result or ErrNotRunning): real watcher+sessions with resets, server-side stream drops followed by timer-driven reconnects, and shutdown arriving while Watch() is connecting/connected/reconnected (fake client blocks until cancelled: exactly the property's proviso); real cache actor with calls in flight; real publisher with Subscribe/Clone/SubscribeWithFilter racing with shutdown; real controller loop with Close, concurrent Close, and list error at every workload point; real lister+ticker at every point of the list/tick cycle. All interleavings explored in each group.",
    note="The full composition below Builder.Create() does not finish even for the empty workload (>1.7M paths in 300 s), so the claim is compositional: each group with fakes honouring the interfaces between them; cross-group cascades (controller waiting for cache/watcher/lister Done) are covered by the controller group with fakes that stop on shutdown. Context cancellation of the root is covered for cache and watcher groups.",
    ref="DESIGN.md §4 C12"),
  "C15": dict(
@@ -81,7 +81,7 @@ CHECKS = {
    ref="DESIGN.md §4 C15"),
  "C09": dict(
    text="Wiring link of the join property, on real code: each of the 8 generated XYsWith joins (through its default wrapper) and IngressPods runs with the real typed monitors and kcache.monitor between fake untyped controllers (typed objects are the real typed wrappers). The environment makes the source ready and performs K source changes (appear / change / disappear, symbolic namespaces, names, selectors); at every quiescent point z3 shows the filter most recently handed to the destination's for-filter clone equals (FiltersEqual, and agrees on a symbolic pod with) the join's selection rule applied to the current source content, that nothing is refiltered before the source is ready, and that closing the result closes the clone and the monitor's subscription, leaves source and destination running, and leaves no library goroutine behind; for IngressPods also that the intermediate join is closed.",
-   note="Compositional claim: join cache = destination objects selected by current source objects follows from this link + C19 (selection rules) + C06/C08 (for-filter clone content and readiness) + C16 (monitor ordering); the end-to-end system of two controllers is not explored as one state space. Bounds: <=1 initial source object, K<=2 (thorough 3) changes, selectors with one symbolic label.",
+   note="Compositional claim: join cache = destination objects selected by current source objects follows from this link + C19 (selection rules) + C06/C08 (for-filter clone content and readiness) + C16 (monitor ordering); the end-to-end system of two controllers is not explored as one state space. Bounds: <=1 initial source object, K<=2 (thorough 3) changes, selectors with one symbolic label; for ServicePods additionally a concrete-label variant checked against an independent statement of the selection rule (not the library's PodsFilter). Source namespaces are assumed non-empty.",
    ref="DESIGN.md §4 C09"),
  "C20": dict(
    text="Decided semantically, with the identical harness text generated for each of the 12 typed packages: adaptList/typed cache List/Get/wrapEvent on symbolic mixed lists of own-typed and foreign-typed objects equal the untyped result restricted to the type; the real typed subscription.run and typed NewMonitor (over the real kcache.monitor) forward exactly the own-typed events in order and skip foreign ones; Ready/Done/Close/Refilter delegate to the parent; each typed NewClient asks client.ForResource for the API group accessor, resource name and (symbolic) namespace of its own type, the empty namespace passed through. The 8 generated joins satisfy one common wiring specification (C09 harness).",
